@@ -215,13 +215,8 @@ fn rename_in_bodyform(
             ))
         }
 
-        BodyForm::Quoted(atom) => match atom {
-            SExp::Atom(l, n) => match namemap.get(n) {
-                Some(named) => Ok(BodyForm::Quoted(SExp::Atom(l.clone(), named.to_vec()))),
-                None => Ok(BodyForm::Quoted(atom.clone())),
-            },
-            _ => Ok(BodyForm::Quoted(atom.clone())),
-        },
+        // Quoted data is never a variable reference.
+        BodyForm::Quoted(atom) => Ok(BodyForm::Quoted(atom.clone())),
 
         BodyForm::Value(atom) => match atom {
             SExp::Atom(l, n) => match namemap.get(n) {
